@@ -1,0 +1,59 @@
+//go:build verif
+
+// Machine-checked contracts for package verifier (comment-only, build tag `verif`).
+package verifier
+
+// canonProof: every Goldilocks value supplied in the proof is canonical (the whole view:
+// all seven opening lists, every queried leaf element, every fold evaluation, every
+// final-polynomial coefficient and the proof-of-work witness).
+//@ def canonList(l) = forall(k, 0, len(l), canonQE(l[k]))
+//@ def canonOpenings(o) = canonList(o.Constants) && canonList(o.PlonkSigmas) && canonList(o.Wires) && canonList(o.PlonkZs) && canonList(o.PlonkZsNext) && canonList(o.PartialProducts) && canonList(o.QuotientPolys)
+//@ def canonEvalsProofs(t) = forall(j, 0, len(t.EvalsProofs), forall(k, 0, len(t.EvalsProofs[j].Elements), canon(t.EvalsProofs[j].Elements[k])))
+//@ def canonSteps(s) = forall(j, 0, len(s), canonList(s[j].Evals))
+//@ def canonRound(r) = canonEvalsProofs(r.InitialTreesProof) && canonSteps(r.Steps)
+//@ def canonFriProof(f) = forall(i, 0, len(f.QueryRoundProofs), canonRound(f.QueryRoundProofs[i])) && canonList(f.FinalPoly.Coeffs) && canon(f.PowWitness)
+//@ def canonProof(p) = canonOpenings(p.Openings) && canonFriProof(p.OpeningProof)
+
+//@ func (c *VerifierChip) rangeCheckProof(proof variables.Proof)
+//@   props C17 C05
+//@   circuit
+//@   requires chipok(c.glChip)
+//@   honest canonProof(proof)
+//@   ensures canonProof(proof)
+//@   loop 0 invariant -1 <= rangeindex && rangeindex < len(proof.Openings.Constants) && forall(k, 0, rangeindex + 1, canonQE(proof.Openings.Constants[k]))
+//@   loop 1 invariant -1 <= rangeindex && rangeindex < len(proof.Openings.PlonkSigmas) && forall(k, 0, rangeindex + 1, canonQE(proof.Openings.PlonkSigmas[k]))
+//@   loop 2 invariant -1 <= rangeindex && rangeindex < len(proof.Openings.Wires) && forall(k, 0, rangeindex + 1, canonQE(proof.Openings.Wires[k]))
+//@   loop 3 invariant -1 <= rangeindex && rangeindex < len(proof.Openings.PlonkZs) && forall(k, 0, rangeindex + 1, canonQE(proof.Openings.PlonkZs[k]))
+//@   loop 4 invariant -1 <= rangeindex && rangeindex < len(proof.Openings.PlonkZsNext) && forall(k, 0, rangeindex + 1, canonQE(proof.Openings.PlonkZsNext[k]))
+//@   loop 5 invariant -1 <= rangeindex && rangeindex < len(proof.Openings.PartialProducts) && forall(k, 0, rangeindex + 1, canonQE(proof.Openings.PartialProducts[k]))
+//@   loop 6 invariant -1 <= rangeindex && rangeindex < len(proof.Openings.QuotientPolys) && forall(k, 0, rangeindex + 1, canonQE(proof.Openings.QuotientPolys[k]))
+//@   loop 7 invariant -1 <= rangeindex7 && rangeindex7 < len(proof.OpeningProof.QueryRoundProofs) && forall(i, 0, rangeindex7 + 1, canonRound(proof.OpeningProof.QueryRoundProofs[i]))
+//@   loop 8 invariant -1 <= rangeindex8 && rangeindex8 < len(queryRound.InitialTreesProof.EvalsProofs) &&
+//@        forall(j, 0, rangeindex8 + 1, forall(k, 0, len(queryRound.InitialTreesProof.EvalsProofs[j].Elements), canon(queryRound.InitialTreesProof.EvalsProofs[j].Elements[k])))
+//@   loop 9 invariant -1 <= rangeindex9 && rangeindex9 < len(evalsProof.Elements) && forall(k, 0, rangeindex9 + 1, canon(evalsProof.Elements[k]))
+//@   loop 10 invariant -1 <= rangeindex10 && rangeindex10 < len(queryRound.Steps) && forall(j, 0, rangeindex10 + 1, canonList(queryRound.Steps[j].Evals))
+//@   loop 11 invariant -1 <= rangeindex11 && rangeindex11 < len(queryStep.Evals) && forall(k, 0, rangeindex11 + 1, canonQE(queryStep.Evals[k]))
+//@   loop 12 invariant -1 <= rangeindex && rangeindex < len(proof.OpeningProof.FinalPoly.Coeffs) && forall(k, 0, rangeindex + 1, canonQE(proof.OpeningProof.FinalPoly.Coeffs[k]))
+
+//@ func NewVerifierChip(api frontend.API, commonCircuitData types.CommonCircuitData) (res *VerifierChip)
+//@   props C17 C03 C04
+//@   circuit sound-only
+//@   ensures chipok(res.glChip)
+
+//@ func (c *VerifierChip) GetPublicInputsHash(publicInputs []gl.Variable) (res poseidon.GoldilocksHashOut)
+//@   props C17
+//@   circuit
+//@   flag trusted
+//@   ensures true
+
+//@ func (c *VerifierChip) GetChallenges(proof variables.Proof, publicInputsHash poseidon.GoldilocksHashOut, verifierData variables.VerifierOnlyCircuitData) (res variables.ProofChallenges)
+//@   props C17
+//@   circuit
+//@   flag trusted
+//@   ensures true
+
+//@ func (c *VerifierChip) Verify(proof variables.Proof, publicInputs []gl.Variable, verifierData variables.VerifierOnlyCircuitData)
+//@   props C17
+//@   circuit sound-only
+//@   requires chipok(c.glChip)
+//@   ensures canonProof(proof)
